@@ -328,3 +328,14 @@ Definition chk_store_hnsw : P (list Z) :=
   n <- pz ;; diffs <- pz ;; opdiffs <- pz ;;
   let ok := (diffs =? 0) && (opdiffs =? 0) in
   ret (verdict ok ok [diffs; opdiffs]).
+
+(** 1001: an explicit Flush racing the background flush worker, then a crash.  The worker is held at its
+    first file creation; Flush() is called and returns; the directory is copied at that instant (the
+    crash image) and reopened with fresh templates.  documents in frozen memtables when Flush was called,
+    how many of them the reopened image returns, Flush's result code, reopen failed, search failed,
+    returned ids that were never added.  "every document made durable by an earlier completed Flush is
+    still found": a Flush that returned nil has written what it covers, whoever else was writing. *)
+Definition chk_flush_race : P (list Z) :=
+  expected <- pz ;; found <- pz ;; fcode <- pz ;; reopen_err <- pbool ;; search_err <- pbool ;; alien <- pz ;;
+  let ok := negb reopen_err && negb search_err && (alien =? 0) && (negb (fcode =? 0) || (found =? expected)) in
+  ret (verdict ok ok [expected; found; fcode]).
